@@ -29,13 +29,103 @@ func isBufioWriterMethod(cc *ssa.CallCommon) (string, ssa.Value, bool) {
 	return f.Name(), cc.Args[0], true
 }
 
+// frameEmitter finds the function that puts a response frame on the stream:
+// (*ResponseWriter).Write itself, or - when Write contains no bufio.Writer call -
+// the one method of ResponseWriter that does, provided Write delegates to it:
+// it runs only as a synchronous part of Write, is called on Write's own
+// receiver, and Write returns its result unchanged on every path after the
+// call. respIdx is the index (in the emitter's parameters) of the Response.
+func (c *Ctx) frameEmitter() (emit *ssa.Function, respIdx int, why string) {
+	write := c.fn(G, "(*ResponseWriter).Write")
+	if write == nil {
+		return nil, 0, "no (*ResponseWriter).Write"
+	}
+	has := func(f *ssa.Function) bool {
+		for _, a := range an.WithClosures(f) {
+			for _, ci := range an.Calls(a) {
+				if _, _, ok := isBufioWriterMethod(ci.Common()); ok {
+					return true
+				}
+			}
+		}
+		return false
+	}
+	if has(write) {
+		return write, 1, ""
+	}
+	shipped := c.shippedFuncs(G)
+	var cands []*ssa.Function
+	for _, f := range shipped {
+		if f.Parent() == nil && f != write && has(f) {
+			cands = append(cands, f)
+		}
+	}
+	if len(cands) != 1 {
+		return write, 1, sprintf("Write contains no bufio.Writer call and %d other functions do", len(cands))
+	}
+	h := cands[0]
+	if ok, w := syncOnlyFrom(h, write, shipped, 0); !ok {
+		return write, 1, fname(h) + " writes to the stream but does not run only as part of Write: " + w
+	}
+	var call *ssa.Call
+	for _, ci := range an.Calls(write) {
+		if an.StaticCallee(ci.Common()) == h {
+			if cc, ok := ci.(*ssa.Call); ok && call == nil {
+				call = cc
+			} else {
+				return write, 1, fname(h) + " is called more than once (or deferred) in Write"
+			}
+		}
+	}
+	if call == nil {
+		return write, 1, fname(h) + " is not called directly by Write"
+	}
+	if h.Signature.Recv() == nil || an.Strip(call.Common().Args[0]) != ssa.Value(write.Params[0]) {
+		return write, 1, fname(h) + " is not called on Write's own receiver"
+	}
+	respIdx = -1
+	for i, a := range call.Common().Args {
+		if an.Strip(a) == ssa.Value(write.Params[1]) {
+			respIdx = i
+		}
+	}
+	if respIdx < 0 {
+		return write, 1, fname(h) + " is not given Write's response"
+	}
+	// after the call Write returns the helper's result, whatever it is
+	for _, ret := range an.Returns(write) {
+		if an.Search(an.After(call), isInstr(ret), nil) == nil {
+			continue
+		}
+		res := an.ReturnResults(ret)
+		if len(res) != 1 || an.Strip(res[0]) != ssa.Value(call) {
+			return write, 1, "Write does not return the result of " + fname(h) + " unchanged at " + c.pos(ret)
+		}
+	}
+	// and a success return of Write always passes the call
+	for _, ret := range an.Returns(write) {
+		res := an.ReturnResults(ret)
+		if len(res) == 1 && an.IsNilConst(an.Strip(res[0])) {
+			return write, 1, "Write can return nil without calling " + fname(h) + " at " + c.pos(ret)
+		}
+	}
+	return h, respIdx, ""
+}
+
 func checkC05(c *Ctx) {
 	R := c.R
-	write := c.fn(G, "(*ResponseWriter).Write")
+	apiWrite := c.fn(G, "(*ResponseWriter).Write")
 	newRW := c.fn(G, "newResponseWriter")
 	serve := c.fn(G, "(*conn).serveRequests")
-	if write == nil || newRW == nil || serve == nil {
+	if apiWrite == nil || newRW == nil || serve == nil {
 		return
+	}
+	// the function that emits the frame: Write, or the helper Write delegates to
+	write, respIdx, whyNot := c.frameEmitter()
+	if write != apiWrite {
+		R.OK("C05-owner", "(*ResponseWriter).Write delegates frame emission to "+fname(write), c.P.Pos(write.Pos()), "called once on Write's receiver with Write's response; Write returns its result unchanged; it runs only as part of Write")
+	} else if whyNot != "" {
+		R.Fail("C05-owner", "(*ResponseWriter).Write emits the frame", c.P.Pos(apiWrite.Pos()), whyNot)
 	}
 	shipped := c.shippedFuncs(G)
 
@@ -225,7 +315,7 @@ func checkC05(c *Ctx) {
 			// receiver: load of .Packet of (invoke r.packet())
 			if base, okf := fieldLoad(call.Common().Args[0], G, "packet", "Packet"); okf {
 				if pc, isC := an.Strip(base).(*ssa.Call); isC && pc.Common().IsInvoke() && pc.Common().Method.Name() == "packet" &&
-					an.Strip(pc.Common().Value) == ssa.Value(write.Params[1]) {
+					respIdx < len(write.Params) && an.Strip(pc.Common().Value) == ssa.Value(write.Params[respIdx]) {
 					ok = true
 				}
 			}
